@@ -13,10 +13,12 @@ from urllib.parse import quote
 import lib
 from lib import gz, gtext, glist, gbool, gopt, gpair
 
-THEOREMS = ['C03_s2cmi_rank', 'C03_s2cmi_step', 'C03_unflatten_denotation', 'C03_flat_roundtrip',
-            'C03_sort_canonical', 'C03_indexed_primitive_order', 'C03_qs_roundtrip']
+THEOREMS = ['C03_s2cmi_rank', 'C03_request_fidelity', 'C03_qs_roundtrip', 'C03_get_fidelity',
+            'C03_flatten_roundtrip', 'C03_request_fidelity_pinned_refuted',
+            'C03_request_fidelity_pinned_strict_refuted', 'C03_flatten_roundtrip_refuted']
+SRC_THEOREMS = ['C03_source_tie']
 
-IMPORTS = 'From SpyneV Require Import Base.Prelude C03.Model C03.Check.'
+IMPORTS = 'From SpyneV Require Import Base.Prelude C03.Model C03.Check C03.Spec.'
 NAMES = ['a', 'b', 'c', 'i', 's', 'xs', 'p', 'q', 'n1', 'val', 'it', 'k9']
 DELIMS = ['.', '.', '.', '_', '__', '/', ':', '-']
 TEXT_ALPHABET = 'abcxyzABC0129 .-_~&;=+%[]#?/:@!$\'(),*"<>\\^`{|}\t'
@@ -175,18 +177,41 @@ def has_items(v):
         return len(v[1]) > 0
     return any(has_items(x) for _, x in v[1])
 
+def decide(fields, ov, rng, indexed_prims=None):
+    """fix the spelling choices the notation leaves open: a primitive array ['L', xs] becomes
+    ['R', xs] (repeated key) or ['I', [[label, x]..]] (indexed keys, increasing labels)"""
+    def go(t, v):
+        k = v[0]
+        if k == 'L':
+            ix = indexed_prims if indexed_prims is not None else (rng.random() < 0.5)
+            if not ix:
+                return ['R', list(v[1])]
+            labs = list(range(len(v[1]))) if rng.random() < 0.6 else \
+                sorted(rng.sample(range(0, 40 + 3 * len(v[1])), len(v[1])))
+            return ['I', [[lab, x] for lab, x in zip(labs, v[1])]]
+        if k == 'A':
+            return ['A', [[lab, go(dict(t, arr=False), e)] for lab, e in v[1]]]
+        if k == 'O':
+            return ['O', [[n, go(ft, fv)] for (n, ft), (_, fv) in zip(t['fields'], v[1])]]
+        return v
+    return ['O', [[n, go(ft, fv)] for (n, ft), (_, fv) in zip(fields, ov[1])]]
+
 def compact(v):
-    """sparse value -> the value the user function must receive"""
+    """sparse (possibly decided) value -> the value the user function must receive"""
     k = v[0]
     if k == 'A':
         return ['A', [compact(x) for _, x in v[1]]]
     if k == 'O':
         return ['O', [[n, compact(x)] for n, x in v[1]]]
+    if k == 'R':
+        return ['L', list(v[1])]
+    if k == 'I':
+        return ['L', [x for _, x in v[1]]]
     return v
 
-def spell(fields, ov, delim, rng, indexed_prims=None):
-    """documented flattened notation of the object value: list of (key, value) pairs in
-    declaration order.  Primitive arrays: repeated key, or (indexed_prims) key[i]."""
+def spell(fields, dv, delim):
+    """documented flattened notation of a decided value: list of (key, value) pairs in
+    declaration order (the Python twin of Spec.spell; tied to it by the spec_tie correspondence)"""
     out = []
     def go(t, v, prefix):
         k = v[0]
@@ -195,16 +220,12 @@ def spell(fields, ov, delim, rng, indexed_prims=None):
         key = delim.join(prefix)
         if k == 'S':
             out.append((key, v[1]))
-        elif k == 'L':
-            ix = indexed_prims if indexed_prims is not None else (rng.random() < 0.5)
-            if ix:
-                labs = list(range(len(v[1]))) if rng.random() < 0.6 else \
-                    sorted(rng.sample(range(0, 40 + 3 * len(v[1])), len(v[1])))
-                for lab, x in zip(labs, v[1]):
-                    out.append(('%s[%d]' % (key, lab), x))
-            else:
-                for x in v[1]:
-                    out.append((key, x))
+        elif k == 'R':
+            for x in v[1]:
+                out.append((key, x))
+        elif k == 'I':
+            for lab, x in v[1]:
+                out.append(('%s[%d]' % (key, lab), x))
         elif k == 'A':
             if not v[1]:
                 out.append((key, 'empty'))
@@ -215,9 +236,50 @@ def spell(fields, ov, delim, rng, indexed_prims=None):
         else:
             for (n, ft), (_, fv) in zip(t['fields'], v[1]):
                 go(ft, fv, prefix + [n])
-    for (n, ft), (_, fv) in zip(fields, ov[1]):
+    for (n, ft), (_, fv) in zip(fields, dv[1]):
         go(ft, fv, [n])
     return out
+
+def gsval(v):
+    k = v[0]
+    if k == 'N':
+        return 'SNone'
+    if k == 'S':
+        return '(SStr %s)' % gtext(v[1])
+    if k == 'R':
+        return '(SRep %s)' % glist([gtext(x) for x in v[1]])
+    if k == 'I':
+        return '(SIdx %s)' % glist(['(%s, %s)' % (gz(lab), gtext(x)) for lab, x in v[1]])
+    if k == 'O':
+        return '(SObj %s)' % glist([gsval(x) for _, x in v[1]])
+    if k == 'A':
+        return '(SArr %s)' % glist(['(%s, %s)' % (gz(lab), gsval(e)) for lab, e in v[1]])
+    raise ValueError(v)
+
+def group_pairs(pairs):
+    d = {}
+    for k, v in pairs:
+        d.setdefault(k, []).append(v)
+    return list(d.items())
+
+def gdoc(doc):
+    return glist(['(%s, %s)' % (gtext(k), glist([gtext(x) for x in vs])) for k, vs in doc])
+
+SPEC_TIE = []        # cases of the spec_tie correspondence, queued by the generators below
+SPEC_TIE_MAX = [400]
+
+def spec_tie_case(check, strict, delim, fields, dv, pairs):
+    """the Python generator's notion of 'conformant value spelled in the documented notation' is the
+    Coq one: wf_sig, conf_fields, the document is a permutation of Spec.spell, and the expected
+    value is Spec.compact_fields"""
+    if len(SPEC_TIE) >= SPEC_TIE_MAX[0]:
+        return
+    exp = compact(dv)[1]
+    term = '(%s, %s, %s, %s, %s, %s)' % (gbool(strict), gtext(delim), gfields(fields),
+                                         glist([gsval(x) for _, x in dv[1]]), gdoc(group_pairs(pairs)), gobj(exp))
+    SPEC_TIE.append((term, 'spec tie strict=%s delim=%r fields=%s value=%s' % (
+        strict, delim, short_fields(fields), json.dumps(dv)[:300])))
+    check.count(('spec', strict, delim, short_fields(fields), json.dumps(dv), json.dumps(pairs)))
 
 def shuffle_pairs(pairs, rng):
     """a permutation of the pairs that keeps pairs with the same key in their order
@@ -647,13 +709,33 @@ def corr_flatten(check, impl, tier):
                 items.append('(%s, FEmpty)' % gtext(k))
             else:
                 items.append('(%s, FOne %s)' % (gtext(k), gtext(x)))
-        cases.append(('(%s, %s, %s, %s)' % (gtext(delim), gfields(fields), gobj(v[1]), glist(items)),
+        cases.append(('(%s, %s, %s, %s, %s)' % (gtext(delim), gfields(fields), gobj(v[1]), glist(items),
+                                                gbool(py_typed_obj(fields, v[1]))),
                       'object_to_simple_dict delim=%r fields=%s value=%s' % (delim, short_fields(fields), json.dumps(v))))
         check.count(('flat', delim, json.dumps(fields, default=str), json.dumps(v)))
-    correspond_by_size(check, 'flatten', 'text * list (text * ty) * list (text * val) * list (text * fval)',
-                   '(fun c => let \'(d, fs, v, r) := c in flat_eqb (flatten d fs v) r)', cases,
-                   show='(fun c : text * list (text * ty) * list (text * val) * list (text * fval) => '
-                        'let \'(d, fs, v, r) := c in flatten d fs v)')
+    # the model's flatten equals the real one, and the guard of C03_flatten_roundtrip (typed_obj)
+    # is the oracle's notion of "a value the notation can carry"
+    correspond_by_size(check, 'flatten', 'text * list (text * ty) * list (text * val) * list (text * fval) * bool',
+                   '(fun c => let \'(d, fs, v, r, ty) := c in flat_eqb (flatten d fs v) r && Bool.eqb (typed_obj fs v) ty)', cases,
+                   show='(fun c : text * list (text * ty) * list (text * val) * list (text * fval) * bool => '
+                        'let \'(d, fs, v, r, ty) := c in (flatten d fs v, typed_obj fs v))')
+
+def py_typed(t, v):
+    """Python twin of Spec.typed: a value object_to_simple_dict can write and the notation can carry"""
+    k = v[0]
+    if k == 'N':
+        return True
+    if t['k'] == 'prim':
+        return (k == 'L' and len(v[1]) > 0) if t['arr'] else k == 'S'
+    def obj(o):
+        return o[0] == 'O' and all(py_typed(ft, fv) for (_, ft), (_, fv) in zip(t['fields'], o[1])) \
+            and any(fv[0] != 'N' for _, fv in o[1])
+    if t['arr']:
+        return k == 'A' and all(obj(e) for e in v[1])
+    return obj(v)
+
+def py_typed_obj(fields, members):
+    return all(py_typed(ft, fv) for (_, ft), (_, fv) in zip(fields, members))
 
 def loosen(sv, fields, rng):
     def go(t, v):
@@ -751,7 +833,9 @@ def corr_get(check, impl, tier):
         if valid:
             validator = rng.choice([None, 'soft'])
             sv = g.topval(fields, contiguous=strict)
-            pairs = shuffle_pairs(spell(fields, sv, delim, rng), rng)
+            dv = decide(fields, sv, rng)
+            pairs = shuffle_pairs(spell(fields, dv, delim), rng)
+            spec_tie_case(check, strict, delim, fields, dv, pairs)
         else:
             validator = None
             pairs = malformed_pairs(g, fields, delim, rng)
@@ -815,7 +899,8 @@ def oracle_get(check, impl, tier):
         sv = g.topval(fields, contiguous=strict, ascii_only=rng.random() < 0.6)
         todo.append((fields, sv, rng.choice(DELIMS), strict, rng.choice([None, 'soft']), None, False))
     for fields, sv, delim, strict, validator, indexed, det in todo:
-        pairs0 = spell(fields, sv, delim, rng, indexed)
+        dv = decide(fields, sv, rng, indexed)
+        pairs0 = spell(fields, dv, delim)
         if not pairs0:
             continue
         perms = [pairs0, list(reversed_keep(pairs0))]
@@ -823,7 +908,8 @@ def oracle_get(check, impl, tier):
             perms = [list(p) for p in itertools.permutations(pairs0)]
         else:
             perms += [shuffle_pairs(pairs0, rng) for _ in range(2 if tier == 'quick' else 6)]
-        expected = compact(sv)[1]
+        expected = compact(dv)[1]
+        spec_tie_case(check, strict, delim, fields, dv, perms[-1])
         for pairs in perms:
             qs = encode_qs(pairs, rng)
             case = {'kind': 'get', 'fields': fields, 'delim': delim, 'strict': strict, 'validator': validator,
@@ -902,6 +988,37 @@ def oracle_flat_roundtrip(check, impl, tier):
         check.count(('rt', case['qs'], short_fields(fields)))
 
 
+def oracle_unspellable(check, impl, tier):
+    """the strict reading of the converse (every object maps back to an equal object) on the two
+    shapes the notation cannot carry (C03_flatten_roundtrip_refuted): reported under fixed keys"""
+    from spyne.protocol.dictdoc import SimpleDictDocument
+    P = lambda **kw: dict({'k': 'prim', 'arr': False, 'leaf': 'i', 'style': 'A'}, **kw)
+    inner = {'k': 'obj', 'arr': False, 'style': 'A', 'cid': 900010, 'fields': [('i', P()), ('s', P(leaf='u'))]}
+    fields = [('xs', P(arr=True)), ('o', inner)]
+    top = {'k': 'obj', 'arr': False, 'style': 'A', 'cid': 900011, 'fields': fields}
+    shapes = [('empty-primitive-array', ['O', [['xs', ['L', []]], ['o', ['N']]]]),
+              ('all-none-object', ['O', [['xs', ['N']], ['o', ['O', [['i', ['N']], ['s', ['N']]]]]]])]
+    for name, v in shapes:
+        case = unspellable_case(impl, fields, top, v)
+        check.count(('unspellable', name))
+        if case['observed'][0] != 'ok' or first_diff(['O', v[1]], ['O', case['observed'][1]]) is not None:
+            check.fail('C03|flat-roundtrip|unspellable|%s' % name,
+                       'object_to_simple_dict of %s gives %r; sent back as a query string the user function receives %s'
+                       % (json.dumps(v), case['flat'], json.dumps(case['observed'])), dict(case, shape=name))
+
+def unspellable_case(impl, fields, top, v):
+    from spyne.protocol.dictdoc import SimpleDictDocument
+    inst = impl.from_val(top, v)
+    d = SimpleDictDocument().object_to_simple_dict(impl.cls(top), inst, subinst_eater=lambda p, x, t: p.to_unicode(t, x))
+    pairs = []
+    for k, x in d.items():
+        pairs.extend((k, y) for y in x) if isinstance(x, list) else pairs.append((k, x))
+    qs = '&'.join('%s=%s' % (quote(k, safe=''), quote(x, safe='')) for k, x in pairs)
+    o, problems = observe_get(impl, fields, '.', False, None, qs)
+    return {'kind': 'unspellable', 'fields': fields, 'value': v, 'flat': {k: x for k, x in d.items()}, 'qs': qs,
+            'observed': list(o)}
+
+
 def oracle_response(check, impl, tier):
     """a single primitive return value is sent as its exact text, with the declared headers"""
     from spyne import Unicode, Integer, ComplexModel, ByteArray
@@ -977,7 +1094,11 @@ def run(check):
         'flat notation and are identified with None; an empty array of objects is spelled key=empty and is distinguished',
     ]
     check.check_sources()
+    check.regen(['flatkeys'])
     check.prove('Props.C03', THEOREMS)
+    check.prove('Props.C03_src', SRC_THEOREMS)
+    del SPEC_TIE[:]
+    SPEC_TIE_MAX[0] = 400 if tier == 'quick' else 4000
     impl = Impl()
     corr_s2cmi(check, tier)
     corr_keys(check, tier)
@@ -987,6 +1108,14 @@ def run(check):
     oracle_get(check, impl, tier)
     oracle_flat_roundtrip(check, impl, tier)
     oracle_response(check, impl, tier)
+    oracle_unspellable(check, impl, tier)
+    correspond_by_size(check, 'spec_tie',
+                       'bool * text * list (text * ty) * list sval * list (text * list text) * list (text * val)',
+                       '(fun c => let \'(st, d, fs, vs, doc, e) := c in wf_sig d fs && conf_fields st fs vs && '
+                       'perm_docb doc (spell d fs vs) && obj_eqb (compact_fields fs vs) e)', SPEC_TIE,
+                       show='(fun c : bool * text * list (text * ty) * list sval * list (text * list text) * list (text * val) => '
+                            'let \'(st, d, fs, vs, doc, e) := c in (wf_sig d fs, conf_fields st fs vs, '
+                            'perm_docb doc (spell d fs vs), obj_eqb (compact_fields fs vs) e))')
     lib.flush_correspondences(check)
     check.extra['unexercised'] = ['HttpRpc POST/PUT/PATCH form-body branch (werkzeug absent)']
     return check.finish()
@@ -1006,6 +1135,17 @@ def replay(check, path):
         print('expected     :', json.dumps(case['expected']))
         print('observed now :', json.dumps(o), problems)
         ok = o[0] == 'ok' and not problems and first_diff(['O', case['expected']], ['O', o[1]]) is None
+        print('REPRODUCED' if not ok else 'does not reproduce')
+        return 0 if ok else 1
+    if kind == 'unspellable':
+        impl = Impl()
+        fields = fix_fields(case['fields'])
+        top = {'k': 'obj', 'arr': False, 'style': 'A', 'cid': 900011, 'fields': fields}
+        now = unspellable_case(impl, fields, top, case['value'])
+        print('value        :', json.dumps(case['value']))
+        print('flattened    :', now['flat'])
+        print('observed now :', json.dumps(now['observed']))
+        ok = now['observed'][0] == 'ok' and first_diff(['O', case['value'][1]], ['O', now['observed'][1]]) is None
         print('REPRODUCED' if not ok else 'does not reproduce')
         return 0 if ok else 1
     if kind == 's2cmi':
